@@ -333,6 +333,14 @@ def _tie_cases(r):
                 x = [float(v + shift) for v in base]
                 r.shuffle(x)
                 cs.append({"x": x, "w": None, "nsig": nsig, "niter": r.choice([1, 2, 4, 10]), "family": "exact-tie"})
+    # ties that do NOT end in the "everything clipped" exit: the points exactly at nsig deviations go in round 1,
+    # then nothing changes (var 4 -> 1, resp. 9 -> 9/4; every float operation exact)
+    for base in ([-4, -1, -1, -1, -1, 1, 1, 1, 1, 4], [-6, -2, -2, -1, 0, 0, 1, 2, 2, 6]):
+        for c in (1, 3, 8):
+            for shift in (0, 7, -100):
+                x = [float(c * v + shift) for v in base]
+                r.shuffle(x)
+                cs.append({"x": x, "w": None, "nsig": 2.0, "niter": r.choice([1, 2, 4, 10]), "family": "exact-tie-stable"})
     # weighted tie: weights 2 on the zeros: mean 0, var = (8+2)/(4+12) -> not a square; use w making var = 1
     cs.append({"x": [-2.0, 2.0, 0.0, 0.0], "w": [1.0, 1.0, 3.0, 3.0], "nsig": 2.0, "niter": 3, "family": "exact-tie"})
     return cs
@@ -380,6 +388,11 @@ class SigmaClip(E):
 
     def nontrivial(self, c, out):
         return out[0] == "ok" and len(c["x"]) >= 3 and len(out[1][3]) < len(c["x"])
+
+    def classify(self, c, out, v):
+        # verdict 12 (Exec.v_sigma_clip): the output is what the code-faithful model computes, and the clause as
+        # stated is violated exactly because the code took its "everything clipped" exit (SpecStrict.kf_everything_clipped)
+        return "C18.kf_everything_clipped" if v == 12 else None
 
     def show(self, c):
         if c["x"] and isinstance(c["x"][0], list):
@@ -699,6 +712,12 @@ def run_entry(ctx, ent, cases, tag):
     return res
 
 
+VERDICT_TXT = dict(core.VERDICT_TXT)
+VERDICT_TXT[12] = ("the clause as stated (stop only when nothing changes or at the iteration limit) is violated: a round "
+                   "would discard every remaining point and the routine stops and reports the last non-empty subset "
+                   "(\"nsig too small\"); the output equals the code-faithful model [class C18.kf_everything_clipped]")
+
+
 def differential(ctx, entries, replay_case=None):
     for ent in entries:
         t0 = time.time()
@@ -715,6 +734,10 @@ def differential(ctx, entries, replay_case=None):
         disagree = [(c, o, v) for c, o, v in res if v == 1]
         for c, o, v in res:
             ctx.count("verdict:%s:%d" % (ent.name, v))
+            if v == 12:
+                ctx.count("kf_everything_clipped:" + ent.name)
+                ctx.count("kf_everything_clipped:%s:%s" % (ent.name, ent.family(c)))
+                continue        # failing cases of a (proposed) known class are reported, not counted as evaluations
             if v == -1:
                 ctx.count("borderline_skipped:" + ent.name)
                 ctx.count("borderline_skipped:%s:%s" % (ent.name, ent.family(c)))
@@ -744,7 +767,7 @@ def differential(ctx, entries, replay_case=None):
             shown = None
             if ent.show(c) is not None and len(reported) <= 3:
                 shown = core.coq_show(ctx.work, PRE, ent.show(c))
-            ctx.violation("%s: %s" % (ent.name, core.VERDICT_TXT[v]),
+            ctx.violation("%s: %s" % (ent.name, VERDICT_TXT[v]),
                           {"kind": "failing-input", "entry": ent.name, "case": c, "impl_output": o,
                            "verdict": v, "model_output": shown, "class": cls}, found_input=True)
         if disagree and not failing:
@@ -788,7 +811,11 @@ TRUSTED = [
     "binary64 rounding is NOT modelled: implementation floats are compared with the exact value within 1e-9 x a "
     "condition-aware scale (Spec.v header), cases whose discrete outcome is within that tolerance of its threshold are "
     "skipped (counted as borderline_skipped), except data on which float arithmetic is exact (small integers)",
-    "python harness (harness/props/C18.py), exact-rational literal printers, coqc evaluating Exec.v verdict terms",
+    "sigma_clip is checked against the clause as stated (two stop rules, SpecStrict.sigma_clip_strict_check, soundness "
+    "C18_strict_checker_sound); cases in which the code takes its third exit (a round would discard every remaining point) "
+    "fail that checker and are classified C18.kf_everything_clipped (theorems C18_sigma_clip_fixpoint_refuted / "
+    "_outside_known); get_stats with clipping is checked for consistency with sigma_clip as it is",
+    "python harness (harness/props/C18.py, c18_translate.py), exact-rational literal printers, coqc evaluating Exec.v verdict terms",
 ]
 
 
